@@ -3,7 +3,9 @@ package main
 import (
 	"fmt"
 	"math"
+	"reflect"
 	"time"
+	"unsafe"
 
 	cbreaker "go.linecorp.com/garr/circuit-breaker"
 )
@@ -61,6 +63,105 @@ func genAnyBase() *bspec {
 	}
 }
 
+// configOf digs the accepted *CircuitBreakerConfig out of a built breaker (the field is unexported and there is no accessor;
+// the getters of the configuration are public API, so they are exercised on the object the breaker really uses).
+func configOf(cb cbreaker.CircuitBreaker) *cbreaker.CircuitBreakerConfig {
+	nb, ok := cb.(*cbreaker.NonBlockingCircuitBreaker)
+	if !ok || nb == nil {
+		return nil
+	}
+	f := reflect.ValueOf(nb).Elem().FieldByName("config")
+	if !f.IsValid() || f.Kind() != reflect.Ptr || f.Type() != reflect.TypeOf((*cbreaker.CircuitBreakerConfig)(nil)) {
+		return nil
+	}
+	return (*cbreaker.CircuitBreakerConfig)(unsafe.Pointer(f.Pointer()))
+}
+
+type nopListener struct{ id int }
+
+func (*nopListener) OnStateChanged(cbreaker.CircuitBreaker, cbreaker.CircuitState) error { return nil }
+func (*nopListener) OnEventCountUpdated(cbreaker.CircuitBreaker, *cbreaker.EventCount) error {
+	return nil
+}
+func (*nopListener) OnRequestRejected(cbreaker.CircuitBreaker) error { return nil }
+func (*nopListener) Stop()                                           {}
+
+// gettersEcho: the configuration a breaker was built from must be what its getters say (C20: "accepted" means accepted as given)
+func gettersEcho(cfg *cbreaker.CircuitBreakerConfig, thr float64, mr, tr, op, w, iv int64, name *cbreaker.Name, ls []cbreaker.CircuitBreakerListener) string {
+	var bad []string
+	chk := func(what string, ok bool, got interface{}) {
+		if !ok {
+			bad = append(bad, fmt.Sprintf("%s=%v", what, got))
+		}
+	}
+	chk("GetName", cfg.GetName() == name, cfg.GetName())
+	chk("GetFailureRateThreshold", fbits(cfg.GetFailureRateThreshold()) == fbits(thr), cfg.GetFailureRateThreshold())
+	chk("GetMinimumRequestThreshold", cfg.GetMinimumRequestThreshold() == mr, cfg.GetMinimumRequestThreshold())
+	chk("GetTrialRequestInterval", int64(cfg.GetTrialRequestInterval()) == tr, int64(cfg.GetTrialRequestInterval()))
+	chk("GetCircuitOpenWindow", int64(cfg.GetCircuitOpenWindow()) == op, int64(cfg.GetCircuitOpenWindow()))
+	chk("GetCounterSlidingWindow", int64(cfg.GetCounterSlidingWindow()) == w, int64(cfg.GetCounterSlidingWindow()))
+	chk("GetCounterUpdateInterval", int64(cfg.GetCounterUpdateInterval()) == iv, int64(cfg.GetCounterUpdateInterval()))
+	got := cfg.Getlisteners()
+	same := len(got) == len(ls)
+	for i := 0; same && i < len(ls); i++ {
+		same = got[i] == ls[i]
+	}
+	chk("Getlisteners", same, len(got))
+	if len(bad) > 0 {
+		return fmt.Sprint(bad)
+	}
+	return ""
+}
+
+// nil arguments of the breaker-side constructors (C20; the Lean model has no notion of a missing ticker / configuration,
+// so these are judged by this monitor only). valid is a configuration that was just accepted, or nil.
+func nilArgChecks(valid *cbreaker.CircuitBreakerConfig, thr float64, mr, tr, op, w, iv int64) (verdict string) {
+	defer func() {
+		if p := recover(); p != nil {
+			verdict = fmt.Sprintf("a constructor handed a nil ticker / nil configuration panicked instead of failing with an error: %v", p)
+		}
+	}()
+	// the builder's default ticker (SystemTicker) is a ticker: acceptance is decided by the configuration alone
+	if _, err := cbreaker.NewCircuitBreakerBuilder().SetFailureRateThreshold(thr).SetMinimumRequestThreshold(mr).
+		SetTrialRequestInterval(time.Duration(tr)).SetCircuitOpenWindow(time.Duration(op)).
+		SetCounterSlidingWindow(time.Duration(w)).SetCounterUpdateInterval(time.Duration(iv)).Build(); (err == nil) != (valid != nil) {
+		return fmt.Sprintf("builder with its default ticker: accepted=%v, with an explicit ticker accepted=%v", err == nil, valid != nil)
+	}
+	if _, err := cbreaker.NewCircuitBreakerBuilder().SetTicker(nil).SetFailureRateThreshold(thr).SetMinimumRequestThreshold(mr).
+		SetTrialRequestInterval(time.Duration(tr)).SetCircuitOpenWindow(time.Duration(op)).
+		SetCounterSlidingWindow(time.Duration(w)).SetCounterUpdateInterval(time.Duration(iv)).Build(); err == nil {
+		return "builder with a nil ticker built a breaker"
+	}
+	if nb, err := cbreaker.NewNonBlockingCircuitBreaker(zeroTicker{}, nil); err == nil || nb != nil {
+		return "NewNonBlockingCircuitBreaker(ticker, nil config) did not fail"
+	}
+	if nb, err := cbreaker.NewNonBlockingCircuitBreaker(nil, nil); err == nil || nb != nil {
+		return "NewNonBlockingCircuitBreaker(nil, nil) did not fail"
+	}
+	if nb, err := cbreaker.NewNonBlockingCircuitBreaker(nil, &cbreaker.CircuitBreakerConfig{}); err == nil || nb != nil {
+		return "NewNonBlockingCircuitBreaker(nil ticker, zero config) did not fail"
+	}
+	if valid != nil {
+		if nb, err := cbreaker.NewNonBlockingCircuitBreaker(nil, valid); err == nil || nb != nil {
+			return "NewNonBlockingCircuitBreaker(nil ticker, accepted config) did not fail"
+		}
+		if nb, err := cbreaker.NewNonBlockingCircuitBreaker(zeroTicker{}, valid); err != nil || nb == nil {
+			return fmt.Sprintf("NewNonBlockingCircuitBreaker(ticker, config accepted by the builder) failed: %v", err)
+		} else if configOf(nb) != valid {
+			return "NewNonBlockingCircuitBreaker does not use the configuration it was given"
+		}
+	}
+	if sw, err := cbreaker.NewSlidingWindowCounter(nil, time.Duration(w), time.Duration(iv)); err == nil || sw != nil {
+		return "NewSlidingWindowCounter(nil ticker) did not fail"
+	}
+	if w > 0 && iv > 0 {
+		if sw, err := cbreaker.NewSlidingWindowCounter(zeroTicker{}, time.Duration(w), time.Duration(iv)); err != nil || sw == nil {
+			return fmt.Sprintf("NewSlidingWindowCounter(ticker, %d, %d) failed: %v", w, iv, err)
+		}
+	}
+	return ""
+}
+
 // runCtor: constructors and the breaker configuration accept exactly their documented domain (C20).
 func runCtor(count int, _ []string) {
 	for i := 0; i < count; i++ {
@@ -85,20 +186,78 @@ func runCtor(count int, _ []string) {
 					op = 1
 				}
 			}
+			if rng.Intn(4) == 0 { // valid stream with pairwise different fields: the getters must not mix them up
+				thr = []float64{0.5, 1, 0.8, math.SmallestNonzeroFloat64, math.Nextafter(1, 0), 1.0 / 3}[rng.Intn(6)]
+				ds := []int64{1, 2, 3, 1000, 1e9, 1 << 62, math.MaxInt64 - 1}
+				p := rng.Perm(len(ds))
+				tr, op, iv, w = ds[p[0]], ds[p[1]], ds[p[2]], ds[p[3]]
+				if w <= iv {
+					w, iv = iv, w
+				}
+			}
+			stats["cfg cases"]++
+			if rng.Intn(40) == 0 {
+				// the zero configuration handed straight to the constructor
+				_, err := cbreaker.NewNonBlockingCircuitBreaker(zeroTicker{}, &cbreaker.CircuitBreakerConfig{})
+				impl, mon := "ok", "FAIL C20 NewNonBlockingCircuitBreaker accepted the zero configuration"
+				if err != nil {
+					impl, mon = "err", "ok"
+				}
+				emit("cfg 0 0 0 0 0 0", impl, mon)
+				continue
+			}
 			req := fmt.Sprintf("cfg %s %d %d %d %d %d", fbits(thr), mr, tr, op, w, iv)
-			_, err := cbreaker.NewCircuitBreakerBuilder().SetTicker(zeroTicker{}).
+			bld := cbreaker.NewCircuitBreakerBuilder().SetTicker(zeroTicker{}).
 				SetFailureRateThreshold(thr).SetMinimumRequestThreshold(mr).
 				SetTrialRequestInterval(time.Duration(tr)).SetCircuitOpenWindow(time.Duration(op)).
-				SetCounterSlidingWindow(time.Duration(w)).SetCounterUpdateInterval(time.Duration(iv)).Build()
+				SetCounterSlidingWindow(time.Duration(w)).SetCounterUpdateInterval(time.Duration(iv))
+			// glue that must not influence acceptance: a name, listeners (a nil listener is not registered)
+			var name *cbreaker.Name
+			if rng.Intn(2) == 0 {
+				name = &cbreaker.Name{Namespace: "ns", Subsystem: "ctor", Name: fmt.Sprint(i)}
+				bld.Name(name)
+			}
+			var ls []cbreaker.CircuitBreakerListener
+			for k := rng.Intn(3); k > 0; k-- {
+				if rng.Intn(3) == 0 {
+					bld.AddListener(nil)
+				}
+				l := &nopListener{id: k}
+				ls = append(ls, l)
+				bld.AddListener(l)
+			}
+			cb, err := bld.Build()
 			impl := "ok"
 			if err != nil {
 				impl = "err"
 			}
 			want := thr == thr && 0 < thr && thr <= 1 && tr > 0 && op > 0 && w > 0 && iv > 0 && w > iv
 			mon := "ok"
+			var accepted *cbreaker.CircuitBreakerConfig
 			if want != (err == nil) {
 				mon = fmt.Sprintf("FAIL C20 breaker config thr=%v(bits %s) trial=%d open=%d window=%d interval=%d: accepted=%v, documented domain says %v",
 					thr, fbits(thr), tr, op, w, iv, err == nil, want)
+			} else if err == nil {
+				stats["cfg accepted (getters compared)"]++
+				if accepted = configOf(cb); accepted == nil {
+					impl, mon = "ok-config-not-found", "FAIL C20 harness cannot locate the configuration of the built breaker (field NonBlockingCircuitBreaker.config)"
+				} else {
+					str := accepted.String() // no property says anything about the text; it must not disturb the configuration
+					if msg := gettersEcho(accepted, thr, mr, tr, op, w, iv, name, ls); msg != "" {
+						impl = "ok-getters-differ"
+						mon = fmt.Sprintf("FAIL C20 breaker config thr=%v trial=%d open=%d window=%d interval=%d min=%d accepted, but its getters answer %s", thr, tr, op, w, iv, mr, msg)
+					} else if str == "" {
+						mon = "FAIL C20 String() of an accepted configuration is empty"
+					} else if cb.Name() != name {
+						mon = fmt.Sprintf("FAIL C20 breaker built with name %v answers Name() = %v", name, cb.Name())
+					}
+				}
+			}
+			if mon == "ok" && rng.Intn(4) == 0 {
+				stats["cfg nil-argument probes"]++
+				if msg := nilArgChecks(accepted, thr, mr, tr, op, w, iv); msg != "" {
+					mon = "FAIL C20 " + msg
+				}
 			}
 			emit(req, impl, mon)
 			continue
@@ -116,15 +275,20 @@ func runCtor(count int, _ []string) {
 				b = &bspec{kind: 'J', jlo: lo, jhi: hi, inner: b}
 			}
 		}
-		req := "ctor " + b.expr()
-		obj := b.construct()
+		route := genRoute()
+		req := fmt.Sprintf("ctor %s via %c", b.expr(), route)
+		obj := b.constructVia(route)
+		stats["ctor route "+string(route)]++
+		if b.inner != nil && !b.inner.inDomain() {
+			stats["ctor wrapper over a layer that cannot be built (nil delegate / failing Build), route "+string(route)]++
+		}
 		impl := "ok"
 		if obj == nil {
 			impl = "err"
 		}
 		mon := "ok"
 		if want := b.inDomain(); want != (obj != nil) {
-			mon = fmt.Sprintf("FAIL C20 constructor %s: accepted=%v, documented domain says %v", b.expr(), obj != nil, want)
+			mon = fmt.Sprintf("FAIL C20 constructor %s (route %c: d = constructors nested directly, a failed layer below is passed on as a nil delegate; b = BackoffBuilder): accepted=%v, documented domain says %v", b.expr(), route, obj != nil, want)
 		}
 		emit(req, impl, mon)
 	}
